@@ -35,11 +35,13 @@ ASSUMPTIONS = [
 ]
 
 
-def timed_run(v, params, kind, delivery):
-    """-> (tokens, [reads at delivery], src)"""
+def timed_run(v, params, kind, delivery, tk=None):
+    """-> (tokens, [reads at delivery], src).  tk: reuse this tokenizer object (the three delivery
+    modes are modes of ONE tokenizer; its earlier runs must not show)."""
     frames, validator = tok.FRAME_KINDS[kind](v)
     src = tok.CountingSource(frames)
-    tk = tok.make_tokenizer(validator, params)
+    if tk is None:
+        tk = tok.make_tokenizer(validator, params)
     at = []
     tokens = tok.deliver(tk, src, delivery, on_token=lambda t, late: at.append(src.reads))
     return tokens, at, src
@@ -50,9 +52,14 @@ def check_latency(ctx, v, params, kind, origin):
     case = T.case_of(v, params, kind, "generator")
     n = len(v)
     seqs = {}
-    for delivery in ("generator", "callback", "list"):
+    shared = None
+    if (len(v) + params[0] + params[2]) % 2:  # half of the cases: one tokenizer object serves all three modes
+        shared = tok.make_tokenizer(tok.FRAME_KINDS[kind](v)[1], params)
+        ctx.count("cases_one_tokenizer_for_all_modes")
+    order = ("generator", "callback", "list") if len(v) % 3 else ("list", "callback", "generator")
+    for delivery in order:
         try:
-            tokens, at, src = timed_run(v, params, kind, delivery)
+            tokens, at, src = timed_run(v, params, kind, delivery, shared)
         except Exception as exc:
             ctx.violation("exception:" + type(exc).__name__, {"case": dict(case, delivery=delivery), "exception": repr(exc)[:200]})
             return None
@@ -99,9 +106,10 @@ def check_prefixes(ctx, v, params, kind):
         return
     W = [(s, e) for _, s, e in whole]
     d = [a - 1 for a in at]  # index of the deciding read of each whole-stream token
+    shared = tok.make_tokenizer(tok.FRAME_KINDS[kind](v)[1], params) if len(v) % 2 else None
     for c in range(len(v) + 1):
         try:
-            ptoks, pat, _ = timed_run(v[:c], params, kind, "generator")
+            ptoks, pat, _ = timed_run(v[:c], params, kind, "generator", shared)
         except Exception as exc:
             ctx.violation("exception:" + type(exc).__name__, {"case": dict(case, cut=c), "exception": repr(exc)[:200]})
             return
@@ -236,6 +244,47 @@ def check_split_lazy(ctx, case, tmpdir):
         sys.stdin = old_stdin
 
 
+def check_split_lazy_overlap(ctx, case, rng):
+    """split() given an AudioReader with hop_dur < block_dur over a counting buffer source."""
+    from auditok import AudioReader
+
+    built = AC.build_audio(case)
+    if built is None:
+        return
+    data, _ = built
+    bps = case["width"] * case["channels"]
+    block = case["block"]
+    if block < 2:
+        return
+    hop = rng.randint(1, block - 1)
+    src = CBuffer(data, case["rate"], case["width"], case["channels"])
+    reader = AudioReader(src, block_dur=block / case["rate"], hop_dur=hop / case["rate"])
+    if reader.block_size != block or reader.hop_size != hop:
+        return
+    kw = {k: v for k, v in AC.split_kwargs(case).items() if k not in ("analysis_window",)}
+    # durations are counted in the reader's block duration
+    w = block / case["rate"]
+    kw.update(min_dur=(case["min_len"] - 0.5) * w, max_dur=(case["max_len"] + 0.5) * w, max_silence=((case["max_sil"] + 0.5) * w if case["max_sil"] else 0))
+    cj = dict(AC.case_json(case), hop=hop)
+    try:
+        nreg = 0
+        for r in auditok.split(reader, **kw):
+            out = getattr(src, "vf_samples", 0)
+            first = round(r.start / reader.block_dur)
+            nwin = -(-len(bytes(r)) // (block * bps))
+            last = first + nwin - 1
+            bound = block + (last + case["max_sil"] + 1) * hop
+            ctx.count("regions_timed_overlap_reader")
+            nreg += 1
+            if out > bound:
+                ctx.violation("split-read-ahead-beyond-latency-bound", {"case": cj, "source": "overlap-reader", "windows": [first, last],
+                                                                       "samples_handed_out": out, "bound": bound, "total_samples": len(data) // bps})
+                return
+        ctx.case(("split-overlap", data, repr(sorted(cj.items()))), nreg > 0)
+    except Exception as exc:
+        ctx.violation("exception:" + type(exc).__name__, {"case": cj, "source": "overlap-reader", "exception": repr(exc)[:300]})
+
+
 def run_shard(ctx):
     import shutil
     import tempfile
@@ -263,6 +312,7 @@ def run_shard(ctx):
         for i in range(conf["split_cases"]):
             case = AC.random_split_case(rng, max_windows=60)
             check_split_lazy(ctx, case, tmpdir)
+            check_split_lazy_overlap(ctx, AC.random_split_case(rng, max_windows=40, allow_partial=False), rng)
             if ctx.out_of_time():
                 break
     finally:
@@ -292,4 +342,4 @@ def inconclusive(merged, tier):
     return [f"monitor never observed {k}" for k in
             ("deliveries_timed", "full_length_tokens_timed", "tokens_delivered_at_end_of_stream", "prefix_runs",
              "prefix_flush_tokens", "prefix_flush_tokens_strictly_shorter", "regions_timed_buffer", "regions_timed_raw",
-             "regions_timed_wav", "regions_timed_stdin", "cases_long") if c.get(k, 0) == 0]
+             "regions_timed_wav", "regions_timed_stdin", "cases_long", "regions_timed_overlap_reader", "cases_one_tokenizer_for_all_modes") if c.get(k, 0) == 0]
